@@ -169,9 +169,23 @@ def handleDql (ws : List String) : Option String := do
   | none => return "skip"   -- `range / 255` is not a power of two: f32 arithmetic not exact
   | some j => return s!"scale_e={e + j} zp={r.zeroPoint} y={showRle r.y}"
 
+def handleGerr (ws : List String) : Option String := do
+  let kvs ← ws.mapM parseKv
+  let nat (k : String) : Option Nat := do (← field kvs k).toNat?
+  let optLen (k : String) : Option (Option Nat) := do
+    let v ← field kvs k
+    if v == "-" then pure none else (v.toNat?).map some
+  match checkGemmArgs (← nat "m") (← nat "ka") (← nat "kb") (← nat "n") (← optLen "za") (← optLen "zb")
+      (← nat "out") with
+  | .ok () => return "ok"
+  | .error .kSizeMismatch => return "err:KSizeMismatch"
+  | .error .wrongQuantParamSize => return "err:WrongQuantParamSize"
+  | .error .outputSizeMismatch => return "err:OutputSizeMismatch"
+
 def handle (line : String) : String :=
   match words line with
   | "g" :: ws => (handleG ws).getD "bad-request"
+  | "gerr" :: ws => (handleGerr ws).getD "bad-request"
   | "mmi" :: ws => (handleMmi ws).getD "bad-request"
   | "cvi" :: ws => (handleCvi ws).getD "bad-request"
   | "ql" :: ws => (handleQl ws).getD "bad-request"
